@@ -22,6 +22,7 @@ pub use net::*;
 
 pub mod c01;
 pub mod c02;
+pub mod c03;
 pub mod c06;
 pub mod c07;
 pub mod c14;
@@ -109,6 +110,7 @@ pub fn select(property: &str, tier: Tier, seed: u64) -> Vec<Case> {
     match property {
         "C01" => c01::cases(tier, seed),
         "C02" => c02::cases(tier, seed),
+        "C03" => c03::cases(tier, seed),
         "C06" => c06::cases(tier, seed),
         "C07" => c07::cases(tier, seed),
         "C14" => c14::cases(tier, seed),
